@@ -328,7 +328,7 @@ func (o *objectImpl) Trace(msg *net.Message, id uint32) {
 		Tv_usec: int64(now.Nanosecond() / 1000),
 	}
 	event := EventTrace{
-		Id:        o.nextTrace,
+		Id:        id,
 		Kind:      int32(msg.Header.Type),
 		SlotId:    msg.Header.Action,
 		Arguments: arguments,
